@@ -1,0 +1,23 @@
+//go:build verif
+
+package dataflow
+
+// VerifOnSummaryConstructed, when set, is called at the end of every RunIntraProcedural (eager and on-demand
+// summary construction) with the analyzer state and the summary that has just been (re)built.
+var VerifOnSummaryConstructed func(a *AnalyzerState, sm *SummaryGraph)
+
+// VerifGate, when set, is called at named points of the analyzer's own goroutines; a blocking gate lets the
+// verification harness force a schedule.
+var VerifGate func(point string)
+
+func verifOnSummaryConstructed(a *AnalyzerState, sm *SummaryGraph) {
+	if VerifOnSummaryConstructed != nil {
+		VerifOnSummaryConstructed(a, sm)
+	}
+}
+
+func verifGate(point string) {
+	if VerifGate != nil {
+		VerifGate(point)
+	}
+}
